@@ -105,6 +105,7 @@ func checkC11(c *Ctx) {
 	checkC11Operands(c, p)
 	checkC11Overwrite(c, p)
 	checkDecodeFresh(c, p)
+	checkReturnAlias(c, p)
 	checkClearBeforeCopy(c, p, "C11.overwrite", "ecc/goldilocks", "Scalar", "FromBytes")
 	checkC11Fresh(c, p)
 	checkC11Retain(c, p)
@@ -611,6 +612,45 @@ func checkC11Retain(c *Ctx, p *Program) {
 			}
 		}
 		bad := append([]string{}, selfAlias...)
+		// the decoded object handed back is not the input buffer itself under another type
+		// (`return PublicKey(buf), nil`)
+		for _, b := range f.Blocks {
+			ret, ok := b.Instrs[len(b.Instrs)-1].(*ssa.Return)
+			if !ok {
+				continue
+			}
+			for _, rv := range ret.Results {
+				v := rv
+				for i := 0; i < 8; i++ {
+					switch x := v.(type) {
+					case *ssa.MakeInterface:
+						v = x.X
+						continue
+					case *ssa.ChangeType:
+						v = x.X
+						continue
+					case *ssa.Convert:
+						if _, isSlice := x.X.Type().Underlying().(*types.Slice); isSlice {
+							v = x.X
+							continue
+						}
+					case *ssa.Slice:
+						v = x.X
+						continue
+					}
+					break
+				}
+				if par, ok := v.(*ssa.Parameter); ok {
+					if _, isSlice := par.Type().Underlying().(*types.Slice); isSlice && untrustedParam(par.Type()) {
+						if _, isSliceRes := rv.Type().Underlying().(*types.Slice); isSliceRes || types.IsInterface(rv.Type()) {
+							if rv != ssa.Value(par) {
+								bad = append(bad, p.pos(ret.Pos())+": the returned object is the input buffer "+par.Name()+" under another type (no copy is made)")
+							}
+						}
+					}
+				}
+			}
+		}
 		for _, k := range keeps {
 			// re-bound to a private copy later on every path to a return? (a dominating-later store of a
 			// copy of the field itself: approximated by "some store of a self-copy to the same field
